@@ -574,8 +574,24 @@ impl Analyzer
 				{
 					unreachable!()
 				}
-				ValueType::Pointer { .. } => Ok(value_type),
-				ValueType::View { .. } => Ok(value_type),
+				ValueType::Pointer { ref deref_type }
+				| ValueType::View { ref deref_type } =>
+				{
+					// A structure behind a pointer is not embedded,
+					// but a constant that names the length of an array
+					// behind a pointer is needed to type the container.
+					let mut named_lengths = Vec::new();
+					collect_named_lengths(deref_type, &mut named_lengths);
+					for named_length in named_lengths
+					{
+						self.found_container_1(
+							name_of_container,
+							name_of_member,
+							named_length,
+						)?;
+					}
+					Ok(value_type)
+				}
 			},
 			Err(poison) => Err(poison),
 		}
@@ -1660,6 +1676,34 @@ impl Analyzable for Poisonable<ValueType>
 	fn analyze(self, analyzer: &mut Analyzer) -> Self
 	{
 		self.and_then(|x| analyze_type(x, analyzer))
+	}
+}
+
+fn collect_named_lengths(value_type: &ValueType, buffer: &mut Vec<Identifier>)
+{
+	match value_type
+	{
+		ValueType::ArrayWithNamedLength {
+			element_type,
+			named_length,
+		} =>
+		{
+			collect_named_lengths(element_type, buffer);
+			buffer.push(named_length.clone());
+		}
+		ValueType::Array { element_type, .. }
+		| ValueType::Slice { element_type }
+		| ValueType::SlicePointer { element_type }
+		| ValueType::EndlessArray { element_type }
+		| ValueType::Arraylike { element_type } =>
+		{
+			collect_named_lengths(element_type, buffer);
+		}
+		ValueType::Pointer { deref_type } | ValueType::View { deref_type } =>
+		{
+			collect_named_lengths(deref_type, buffer);
+		}
+		_ => (),
 	}
 }
 
